@@ -3,12 +3,16 @@
 package props
 
 import (
+	"encoding/json"
 	"fmt"
 	"os"
+	"sort"
+	"sync"
 	"testing"
 
 	"go.flow.arcalot.io/engine/internal/verif/vcase"
 	"go.flow.arcalot.io/engine/internal/verif/vplug"
+	"go.flow.arcalot.io/engine/internal/verif/vsched"
 	"pgregory.net/rapid"
 )
 
@@ -141,6 +145,30 @@ func unreachMotif(rt *rapid.T) *vcase.Case {
 	return c
 }
 
+var planSitesOnce struct {
+	sync.Once
+	sites []string
+}
+
+// planSites lists all schedule points of this build (empty for a binary without them).
+func planSites() []string {
+	planSitesOnce.Do(func() {
+		raw, err := os.ReadFile("build/sites.json")
+		if err != nil {
+			return
+		}
+		var all map[string][]string
+		if json.Unmarshal(raw, &all) != nil {
+			return
+		}
+		for _, l := range all {
+			planSitesOnce.sites = append(planSitesOnce.sites, l...)
+		}
+		sort.Strings(planSitesOnce.sites)
+	})
+	return planSitesOnce.sites
+}
+
 func TestC01(t *testing.T) {
 	p := liveProfile()
 	runProperty(t, "C01",
@@ -152,6 +180,16 @@ func TestC01(t *testing.T) {
 				c = vcase.GenCase(rt, p, "C01")
 			}
 			c.WatchdogMs = 10000
+			// injected scheduling delays: a quarter of the cases holds 1-3 schedule points (first 1-3
+			// passes each, 5-40 ms) - a delay may change which error ends a run, never whether it ends
+			if sites := planSites(); len(sites) > 0 && rapid.IntRange(0, 3).Draw(rt, "plan?") == 0 {
+				c.Plan = vsched.Plan{}
+				for i, n := 0, rapid.IntRange(1, 3).Draw(rt, "plan.n"); i < n; i++ {
+					site := sites[rapid.IntRange(0, len(sites)-1).Draw(rt, fmt.Sprintf("plan.site%d", i))]
+					c.Plan[site] = vsched.SitePlan{DelayMs: rapid.IntRange(5, 40).Draw(rt, fmt.Sprintf("plan.ms%d", i)), First: rapid.IntRange(1, 3).Draw(rt, fmt.Sprintf("plan.first%d", i))}
+				}
+				c.Labels = append(c.Labels, "injected-scheduling-delays")
+			}
 			if os.Getenv("VERIF_C01_DEFAULT_CLOSURE") == "" {
 				shortClosure(c)
 			}
